@@ -12,8 +12,9 @@ Readings fixed here (each is the reading under which the repaired code is right)
   time_div*(end_time - t0) is smaller than the last offset frame (leading margin included);
 * rows: 128; span + 2*margin when pitch_margin > -1; `piano_range` is the documented slice [21:109] of
   whatever roll results (88 rows for the full roll);
-* "that note's own velocity": velocities are MIDI velocities 1..127 (a velocity of 0 is a note-off and is
-  not generated); without a velocity column every note counts as velocity 1;
+* "that note's own velocity": velocities are MIDI velocities 0..127; a note of velocity 0 does not sound (round 6: it
+  is drawn - an explicit zero - but lights no cell, hides no louder note, and its index row designates no cell; it
+  still counts for the shape); without a velocity column every note counts as velocity 1;
 * index rows: (row, onset frame, offset frame, midi pitch) per *input* row; they designate the cells
   row x [onset, offset) - in onset mode the single cell (row, onset), the offset column still reporting
   the note's full end;
@@ -71,7 +72,9 @@ PROPERTY = "C13"
 DRIVER = "drv_c13"
 PROPS = ["PartituraModel.Props.C13", "PartituraModel.Props.C13Args", "PartituraModel.Props.C13Float",
          "PartituraModel.Props.C13Session", "PartituraModel.Props.C13Raster",
-         "PartituraModel.Props.C13DecodeQ", "PartituraModel.Props.C13Shift", "PartituraModel.Props.C13Kinds"]
+         "PartituraModel.Props.C13DecodeQ", "PartituraModel.Props.C13Shift", "PartituraModel.Props.C13Kinds",
+         "PartituraModel.Props.C13PcF", "PartituraModel.Props.C13Vel0", "PartituraModel.Props.C13Margin",
+         "PartituraModel.Props.C13Dec32", "PartituraModel.Props.C13Compose"]
 TRUSTED = [
     "scipy.sparse.csc_matrix((data,(row,col)),shape,dtype=int): places each triplet, rejects out-of-range indices; [21:109,:] slicing; toarray()",
     "np.round = round half to even on binary64 (probed on five ties by harness/translate_c13lits.py: C13L_HALF_EVEN); np.argsort = some "
@@ -81,7 +84,14 @@ TRUSTED = [
     "no overflow / nan / integers beyond 2^53 modelled); tied to the code by comparing EVERY pr / pc observation with the binary64 "
     "model exactly - including those whose products are inexact (families f64: onsets on and one or two ulps beside half-frame "
     "points of resolutions 3,5,6,7,10,12,24,100, inexact min_time, margins 0.1 / 0.3 / 1/3, end times off the grid)",
-    "np.isclose(colsum, 0) modelled as colsum = 0 (integer cell values); float division of the normalised pitch-class roll compared to the exact rational with rtol 1e-9",
+    "np.isclose(colsum, 0) modelled as colsum = 0 (integer cell values); the fold and the column sum of the pitch-class roll are sums of integers "
+    "(exact in binary64 below 2^53), `pc_pianoroll /= norm_term` is ONE correctly rounded division per entry in the format of the returned array "
+    "(Model fPc = roundBin of the generated C13P_PREC / C13P_EMIN; probed: C13P_QUOTIENT) - tied to the code by comparing every entry of every "
+    "pitch-class observation EXACTLY (`pcf` requests; the exact-rational model `pcq` still with rtol 1e-9)",
+    "NEP 50 promotion: a Python float divided by a numpy.float32 is a binary32 division of the two binary32 operands (Model quot32; compared "
+    "exactly, value by value, by `dec32` requests); time_div = np.float32(0) (inf / nan instead of an exception) is not generated",
+    "a float pitch_margin with a fractional part: `pr_pitch += pitch_margin` and `pitch_span + 2 * pitch_margin` are each one binary64 operation, "
+    "`int()` / `.astype(int)` truncate toward zero (Model/PianoRollMargin.lean; compared exactly by `prv` requests, no verdict of the oracle)",
     "the rows of the note array that ensure_notearray builds from a Part / Score / PerformedPart / Performance (note_array_from_part(_list), "
     "PerformedPart.note_array: other properties' subject) are taken from the implementation; the dispatch itself (which kinds are accepted, "
     "which columns the array then has) is modelled from the generated layout table and stated in ensure_dispatch",
@@ -96,25 +106,38 @@ TRUSTED = [
     "sessions are answered by the exact model (an option set with inexact products is left out of the `sess` request)",
     "harness/translate_c13.py reads the constants from the live source (signatures, ast literals, two finite function tables by calling the "
     "functions on their whole domain); harness/translate_c13lits.py reads the literals of the frame arithmetic and of the decoder's "
-    "storage by probing the live functions; tables_spec / tables_extracted / lits_spec / lits_extracted pin every generated value",
+    "storage by probing the live functions; tables_spec / tables_extracted / lits_spec / lits_extracted pin every generated value; "
+    "harness/translate_c13pc.py (round 6) reads the format and the arithmetic of the pitch-class normalisation by probing (pcf_lits)",
 ]
 PARTIAL = [
-    "cell_iff / cell_binary / idx_designate / decode_encode(_shift) and their raster_* forms assume MIDI velocities > 0 (a velocity-0 note yields an explicit zero cell; cell_value covers that case)",
-    "decode_encode_shift: full notes on the fixed pitch axis (no onset mode / separation / pitch margin / binary), time_margin >= 0, notes grid-aligned "
-    "relative to frame 0, over the exact rational times; remove_silence / time_margin / end_time / piano_range are free and cost one common shift of the onsets. "
-    "The float32 columns of the decoder are covered by round_spec / stored_close (error bound 2^-23) and stored_exact / stored_grid (exactness on "
-    "power-of-two grids), not by a round trip through re-rasterisation",
+    "velocities: cell_iff / cell_binary / idx_designate are now proved for ALL velocities >= 0 in their *_sounding forms (Props/C13Vel0.lean: non-zero "
+    "iff a note of NON-ZERO velocity covers the cell; cell_value covers negative ones); decode_encode(_shift) / roundtrip_stored(_shift) still assume "
+    "velocities > 0 (a velocity-0 note leaves no run: the round trip can only return the sounding notes - example in Props/C13Vel0.lean, not a theorem)",
+    "decode_encode_shift / roundtrip_stored_shift: full notes on the fixed pitch axis (no onset mode / separation / pitch margin / binary), time_margin >= 0, "
+    "notes grid-aligned relative to frame 0; remove_silence / time_margin / end_time / piano_range are free and cost one common shift of the onsets. "
+    "Through the float32 columns the round trip is proved exactly for time_div = 2^j (roundtrip_stored: 1, 2, 4, 8 = default, 16, ...); for other "
+    "resolutions the stored times are covered by round_spec / stored_close (error bound 2^-23), not by a round trip through re-rasterisation",
     "binary64 inside the rasteriser: the clauses that do not depend on how a product was rounded (raster_*: one frame at least, separation, onset mode, "
     "maximum velocity, non-zero iff covered, bounds, order independence, index rows) are proved for the binary64 code on ALL inputs; that its frames "
     "are the frames of the exact reading is proved under a side condition (float_exact: products are binary64 numbers; frame_margin: the exact product "
     "keeps 2^-51 of its size away from every half-frame point) - float_differs is a tie where they differ; shape_cols / first_frame / "
-    "decode_encode speak about the exact model only. The float division of the normalised pitch-class roll is compared with tolerance, not proved",
+    "decode_encode speak about the exact model only. The normalised pitch-class roll as returned: every entry is the rounded exact quotient "
+    "(pcf_column, pcf_entry_close: 2^-53 relative), exact for 0 / 1 / power-of-two sums (pcf_exact), a sounding column adds up to 1 within 2^-53 "
+    "(pcf_colsum) - under the side condition that the column sum stays below 2^1022 and cells are >= 0; the sum in pcf_colsum is the exact sum of "
+    "the twelve floats, not numpy's float sum",
     "scipy sparse assembly, slicing and toarray are trusted primitives (Roll.cell is their assumed meaning); compared cell by cell",
+    "a float pitch_margin with a fractional part (Model/PianoRollMargin.lean, compared by `prv` requests): cell value / non-zero iff sounding / shape / "
+    "bounds / index rows / order independence are proved for every rounding function (margin_*, rows_cell_value), agreement with the integer-margin "
+    "rasteriser on integer margins (margin_extends) under explicit < 2^53 bounds; that the row count is span + floor(2 pm) and rows are pitch - "
+    "lowest + floor(pm), injective, in range (margin_rows) only for the exact reading and pm >= 0 - in binary64 a margin one ulp below an integer "
+    "behaves as that integer (example in Props/C13Margin.lean), and for -1 < pm < 0 the two lowest pitches merge (margin_neg_merges): neither is "
+    "what the property's 'pitch span plus twice the margin' says for an integer margin, the oracle gives no verdict there",
     "argument kinds (Model/PianoRollKinds.lean: None / bool / int / float / text / list for every keyword, compared with the code by `prv` requests): "
-    "not modelled are a float pitch_margin that is no integer (the code truncates rows toward zero and can merge the two lowest pitches), texts "
-    "for end_time other than decimal integer literals and texts without a digit, underscores / non-ASCII digits in numeric texts, bytes, nan / inf "
-    "(also as decoder cells), time_div of the decoder given as np.float32 (the quotient is then formed in binary32); the oracle judges only the "
-    "number-like / flag-like kinds (truthiness of int / numpy bool flags, bool and numpy integers as numbers, integral floats)",
+    "not modelled are texts for end_time other than decimal integer literals and texts without a digit, underscores / non-ASCII digits in numeric "
+    "texts, bytes, nan / inf (also as decoder cells), time_div of the decoder given as np.float32(0) or np.float16; the oracle judges only the "
+    "number-like / flag-like kinds (truthiness of int / numpy bool flags, bool and numpy integers as numbers, integral floats). The decoder with a "
+    "np.float32 time_div: the notes are those of any other time_div (dec32_notes), a stored time is the once-rounded quotient for frame numbers "
+    "< 2^24 (quot32_spec) - stated for finite results (`quot32 = some y`), overflow to inf is compared only",
 ]
 RULE = ("random structured note arrays (score units beat/quarter/div, performance units sec/tick, f4/i4 columns in shuffled dtype order, "
         "with/without velocity and channel columns, rows in random order, pitch pools forcing collisions, zero durations, drum channel 9, "
@@ -137,7 +160,10 @@ RULE = ("random structured note arrays (score units beat/quarter/div, performanc
         "integer parts 0 / 1 / 64 / negative, equal and different neighbours, values beyond int32); round trips with "
         "remove_silence / integer and fractional margins / end_time; arguments of another kind than documented (flags as ints / numpy "
         "bools / texts / None / lists, bool / text / None / list / tuple / float for time_div, time_margin, pitch_margin, end_time, "
-        "time_unit). distinct = distinct request text; non-trivial = at least one request answered with a roll/note list (not err)")
+        "time_unit). ROUND 6: notes of velocity 0 inside arrays with a velocity column (alone in a cell, under a louder note, whole arrays); "
+        "every pitch-class entry compared exactly as the binary64 number it is; a stream of float pitch margins with a fractional part "
+        "(0.5, 1.5, -0.5, -0.25, 2.25, 0.1, +-0.9, <= -1, one ulp below 1 and 2, 1e-9; neighbouring pitches / a single pitch / piano_range / "
+        "index rows); every decoded integer roll once more with time_div as numpy.float32. distinct = distinct request text; non-trivial = at least one request answered with a roll/note list (not err)")
 LEVEL_TEXT = ("Lean 4 theorems over an executable exact-rational model of ensure_notearray's dispatch, the keyword handling (defaults, int(), "
               ".item()), _make_pianoroll / compute_pianoroll / compute_pitch_class_pianoroll / pianoroll_to_notearray incl. its float32 "
               "columns (all note lists, all option values, by induction and permutation invariance), stated over constant tables regenerated "
@@ -149,7 +175,12 @@ LEVEL_TEXT = ("Lean 4 theorems over an executable exact-rational model of ensure
               "explicit margin condition; the decoder is modelled and specified on real-valued rolls (it extends the integer one); the "
               "round trip is proved for every remove_silence / margin / end_time up to the one shift the decoder cannot know. "
               "Sessions of calls on shared argument objects are modelled with a store (frame, history independence, container "
-              "independence proved for all call sequences) and compared call by call and store value by store value.")
+              "independence proved for all call sequences) and compared call by call and store value by store value. "
+              "Round 6: the cell clauses hold for all velocities >= 0 (a velocity-0 note neither lights nor hides a cell); the normalised "
+              "pitch-class roll is modelled and compared bit for bit (one rounded division per entry, format and arithmetic regenerated by "
+              "probing), its per-frame normalisation proved for the floats returned; a pitch margin with a fractional part is modelled "
+              "(row-parametric rasteriser, all cell clauses proved for arbitrary rows) and compared; the decoder's binary32 quotient for a "
+              "numpy.float32 time_div; encoder and decoder composed through the float32 columns at power-of-two resolutions.")
 
 SCORE_UNITS = ["beat", "quarter", "div"]
 PERF_UNITS = ["sec", "tick"]
@@ -256,6 +287,17 @@ def gen_array(rng, tier):
         c = dict(rng.choice(rows))
         c = {"p": c["p"], "t": [list(x) for x in c["t"]], "v": (rng.randint(1, 127) if has_vel else None), "c": c["c"]}
         rows.insert(rng.randint(0, len(rows)), c)
+    # round 6: notes of velocity 0 (drawn from a side generator seeded by the rows, so that every other draw of the run is
+    # what it was before): alone in their cells, under a louder note, over a whole array
+    if has_vel and rows:
+        side = random.Random(len(rows) * 1000003 + sum(r["p"] for r in rows) * 31 + grid)
+        m0 = side.random()
+        if m0 < 0.10:
+            for r in side.sample(rows, side.randint(1, min(2, len(rows)))):
+                r["v"] = 0
+        elif m0 < 0.115:
+            for r in rows:
+                r["v"] = 0
     return {"src": "array", "units": units, "has_vel": has_vel, "has_chan": has_chan, "rows": rows}
 
 
@@ -566,6 +608,48 @@ def gen_kinds(rng, tier):
     return arr
 
 
+PM_FRAC = [0.5, 1.5, -0.5, -0.25, 2.25, 0.1, 0.9, -0.9, -1.5, -2.5, 0.9999999999999999, 1.9999999999999998, 3.75, 0.25, -0.75, 1e-9,
+           2.0000000000000004]
+
+
+def gen_pmq(rng, tier):
+    """ROUND 6: pitch_margin given as a float with a fractional part (documented: int; never validated): rows
+    int(pitch - lowest + pm), int(span + 2 pm) of them, index positions int(row - 21) with piano_range; <= -1: no margin.
+    Compared with Model/PianoRollMargin.lean by `prv` requests (no verdict of the oracle: the property speaks of a margin
+    in rows)."""
+    while True:
+        arr = gen_array(rng, "quick")
+        if arr["units"] and 1 <= len(arr["rows"]) <= 6:
+            break
+    # pitch sets in which neighbours exist (merging under a negative margin) or a single pitch (zero rows)
+    w = rng.random()
+    if w < 0.4:
+        base = rng.randint(20, 100)
+        for r in arr["rows"]:
+            r["p"] = base + rng.choice([0, 1, 1, 2, 3, 7])
+    elif w < 0.5:
+        for r in arr["rows"]:
+            r["p"] = arr["rows"][0]["p"]
+    opts = []
+    for _ in range(8):
+        o = gen_opts(rng, arr)
+        o.pop("omit", None)
+        o.pop("pc", None)
+        if isinstance(o["td"], dict):
+            o["td"] = rng.choice([1, 2, 8])
+        if isinstance(o["et"], dict):
+            o["et"] = None
+        if o["tu"] not in arr["units"] + ["auto"]:
+            o["tu"] = "auto"
+        o["ri"] = rng.random() < 0.8
+        o["kd"] = {"pm": ["float", rng.choice(PM_FRAC)]}
+        if rng.random() < 0.2:
+            o["kd"][rng.choice(FLAG_KEYS)] = rng.choice(FLAG_KINDS)
+        opts.append(o)
+    arr.update(k="kinds", opts=opts, fam="pmq")
+    return arr
+
+
 def gen_roundtrip(rng, tier):
     """grid-aligned notes; same-pitch notes neither overlap nor touch"""
     td = rng.choice([1, 2, 8, 16, 12])
@@ -693,9 +777,14 @@ def cases(rng, tier):
     for i in range(n_hist):
         yield gen_hist(hist_rng, tier)
     # round 5 families draw from their own streams (the older families keep their cases for a given seed)
-    k_rng = random.Random(rng.getrandbits(64))
+    k_seed = rng.getrandbits(64)
+    k_rng = random.Random(k_seed)
     for i in range({"quick": 60, "thorough": 600}.get(tier, 600)):
         yield gen_kinds(k_rng, tier)
+    # round 6: a stream of its own, seeded without drawing from `rng` (every older family keeps its cases for a given seed)
+    pm_rng = random.Random(k_seed ^ 0xC13C13)
+    for i in range({"quick": 40, "thorough": 500}.get(tier, 500)):
+        yield gen_pmq(pm_rng, tier)
     q_rng = random.Random(rng.getrandbits(64))
     for i in range({"quick": 200, "thorough": 3000}.get(tier, 3000)):
         yield gen_rollq(q_rng, tier)
@@ -1240,8 +1329,10 @@ def rasterise(notes, e, td, et):
         if a < 0 or b > cols:
             return ("err", "frames outside the roll", t0, last)
         for j in range(a, b):
-            val = 1 if e["bi"] else v
+            val = (1 if v != 0 else 0) if e["bi"] else v
             cells[(row, j)] = max(cells.get((row, j), 0), val)
+    # round 6: a note of velocity 0 does not sound (it can neither light a cell nor hide a louder note: C13.cell_iff_sounding)
+    cells = {k: v for k, v in cells.items() if v != 0}
     start = 0
     rows = full_rows
     if e["pr"]:
@@ -1326,8 +1417,8 @@ def check_roll(lay, arr, e, res, exc):
         else:
             # they designate exactly the non-zero cells (rows cut away by the piano range excepted)
             des = set()
-            for (row, on, off, _) in r:
-                if 0 <= row < rows:
+            for (row, on, off, _), nt in zip(r, notes):
+                if 0 <= row < rows and nt[3] != 0:
                     for j in ([on] if e["oo"] else range(on, off)):
                         des.add((row, j))
             if des != set(got):
@@ -1432,6 +1523,8 @@ class Ctx:
         self.n_exact = 0
         self.f64_compared = 0    # option sets whose binary64 products are inexact: compared with the binary64 model
         self.f64_differs = 0     # ... of which the exact-rational reading gives another roll (a frame boundary decided by rounding)
+        self.pc_entries = 0      # round 6: normalised pitch-class entries compared exactly with the binary64 quotient ...
+        self.pc_rounded = 0      # ... of which the quotient is not a binary64 number (the rounding shows)
         self.session = False     # sessions are answered by the exact model: inexact option sets are left out there
 
 
@@ -1508,12 +1601,21 @@ def observe_pc(c, o, tag="", exact=True):
     r2, e2 = _observe_pc(c, ev, o, tag)
     c.ev.oracle += ev.oracle
     for rq, im in zip(ev.requests, ev.impl):
+        # round 6: `pcf` = binary64 frames AND the binary64 division of the normalisation, compared EXACTLY (every float of the
+        # result as the rational it is); `pcq` = the exact-rational model, compared with tolerance as before
         c.ev.requests.append(rq)
-        c.ev.impl.append(im)
+        c.ev.impl.append(im[1] if isinstance(im, tuple) and im[0] == "@both" else im)
         if exact:
-            c.ev.requests.append("pcq" + rq[2:])
-            c.ev.impl.append(im)
+            c.ev.requests.append("pcq" + rq[3:])
+            c.ev.impl.append(im[2] if isinstance(im, tuple) and im[0] == "@both" else im)
     return r2, e2
+
+
+def fmt_pc_exact(vals):
+    """the text of Driver/C13.lean fmtPc for a pitch-class roll whose floats are taken as the rationals they are"""
+    n, cols, idx = vals
+    return "[%d,[%s],%s]" % (n, ",".join(W.f_list(lambda x: W.f_rat(W.as_fraction(x)), col) for col in cols),
+                             W.f_list(lambda row: W.f_list(W.f_int, row), idx))
 
 
 def _observe_pc(c, ev, o, tag):
@@ -1521,7 +1623,7 @@ def _observe_pc(c, ev, o, tag):
     pe = pc_effective(o)
     kw = pc_kwargs_of(o, c.pool)
     r2, e2 = call(M.compute_pitch_class_pianoroll, inp, **kw)
-    ev.requests.append("pc %s %s %s" % (W.s(src), req_pc_args(o), c.arr_req))
+    ev.requests.append("pcf %s %s %s" % (W.s(src), req_pc_args(o), c.arr_req))
     if e2 is None and aliased(r2, [inp] + list(kw.values())):
         ev.oracle.append("alias: the pitch-class roll / index rows share memory with an argument%s [%s opts %s]" % (tag, src, o))
     # the full roll it must be the fold of (computed by the implementation itself from fresh argument objects, checked
@@ -1544,9 +1646,14 @@ def _observe_pc(c, ev, o, tag):
         ev.impl.append("unreadable")
         return r2, e2
     pcm, pidx = (r2 if pe["ri"] else (r2, None))
+    if not np.isfinite(np.asarray(pcm, dtype=float)).all():
+        # round 6: nan / inf entries (e.g. an empty frame divided by 0) - never the octave fold of an integer roll
+        ev.oracle.append("pc: the pitch-class roll has nan / inf entries%s [%s opts %s]" % (tag, src, o))
+        ev.impl.append("non-finite entries")
+        return r2, e2
     vals = [int(pcm.shape[1]), [[float(x) for x in pcm[:, j]] for j in range(pcm.shape[1])],
             [[int(x) for x in row] for row in pidx] if pidx is not None else []]
-    ev.impl.append(("@approx", vals, 1e-9))
+    ev.impl.append(("@both", fmt_pc_exact(vals), ("@approx", vals, 1e-9)))
     if e3 is not None:
         ev.oracle.append("pc: pitch-class roll returned although the full roll is rejected (%r)%s [%s opts %s]" % (e3, tag, src, o))
         return r2, e2
@@ -1557,6 +1664,9 @@ def _observe_pc(c, ev, o, tag):
         return r2, e2
     bad = [(c_, j) for j in range(fa.shape[1]) for c_ in range(12)
            if abs(Fraction(float(pcm[c_, j])) - exp[j][c_]) > Fraction(1, 10**9)]
+    if pe["norm"]:
+        c.pc_entries += 12 * fa.shape[1]
+        c.pc_rounded += sum(1 for j in range(fa.shape[1]) for c_ in range(12) if Fraction(float(pcm[c_, j])) != exp[j][c_])
     if bad:
         c_, j = bad[0]
         ev.oracle.append("pc: cell %r is %r, the octave fold%s gives %s%s [%s opts %s]" % (
@@ -1580,7 +1690,7 @@ def finish(c, before, what="compute_pianoroll"):
     if freeze(c.inp) != before:
         ev.oracle.append("frame: %s modified its note_info argument" % what)
     ev.info = {"skipped_inexact": c.skipped, "skipped_large": c.large, "f64_compared": c.f64_compared,
-               "f64_differs": c.f64_differs}
+               "f64_differs": c.f64_differs, "pc_entries": c.pc_entries, "pc_rounded": c.pc_rounded}
     ev.key = ("|".join(ev.requests)) if c.nontrivial else None
     return ev
 
@@ -1888,6 +1998,23 @@ def eval_dec(d):
             ev.oracle.append("dec: note ids are not n0..n%d" % (len(res) - 1))
     if (a != before).any():
         ev.oracle.append("frame: pianoroll_to_notearray modified its argument")
+    # round 6: the same roll with time_div as a numpy.float32 - the quotient is then formed in binary32 (one rounding;
+    # Model/PianoRollDecode32.lean); the notes must be the same, the times are compared exactly with the model
+    if td is not None:
+        with warnings.catch_warnings():
+            warnings.simplefilter("ignore")
+            td32 = np.float32(td)
+        if td32 != 0 and np.isfinite(td32):
+            res32, exc32 = dec_call(M, inp, td32, unit)
+            ev.requests.append("dec32 %d %d %s %s" % (d["rows"], d["n"], W.q(Fraction(float(td32))),
+                                                     W.lst(lambda c: "%d %d %d" % tuple(c), d["cells"])))
+            if exc32 is not None:
+                ev.impl.append("err")
+                ev.oracle.append("dec: time_div=np.float32(%r) rejected (%r), time_div=%r accepted" % (td, exc32, td))
+            else:
+                ev.impl.append(fmt_notes_exact(res32, unit_eff))
+                if [(int(r["pitch"]), int(r["velocity"])) for r in res32] != [(g[0], g[3]) for g in got]:
+                    ev.oracle.append("dec: time_div=np.float32(%r) decodes other notes than time_div=%r" % (td, td))
     return ev
 
 
@@ -1993,6 +2120,21 @@ def eval_kinds(d):
         if exc is None and aliased(res, [inp]):
             ev.oracle.append("alias: the returned roll / index rows share memory with an argument")
         m0 = None if exc is not None else (res[0] if isinstance(res, tuple) else res)
+        # round 6: a float margin pm > -1 whose double is a whole number (0.5, 1.5, -0.5, ...): "pitch span plus twice the margin"
+        # is a whole number of rows - the one clause of the property that has a reading for such a margin
+        pmk = kd.get("pm")
+        if (m0 is not None and pmk and pmk[0] == "float" and float(pmk[1]) > -1 and float(pmk[1]) != int(pmk[1])
+                and float(2 * pmk[1]).is_integer() and c.lay is not None and c.arr is not None and len(kd) == 1):
+            sel = select_unit(c.lay, e)
+            if sel not in ("skip", None):
+                ns_ = notes_of(c.lay, c.arr, e, sel[0])
+                if ns_:
+                    full = max(n[0] for n in ns_) - min(n[0] for n in ns_) + 1 + int(2 * pmk[1])
+                    want_rows = max(0, min(109, full) - min(21, full)) if e["pr"] else full
+                    if m0.shape[0] != want_rows:
+                        ev.oracle.append("shape: %d rows with pitch_margin=%r, the pitch span plus twice the margin%s is %d [array opts %s]" % (
+                            m0.shape[0], pmk[1], " (rows 21..108 of it)" if e["pr"] else "", want_rows,
+                            {k: v for k, v in o.items() if k != "kd"}))
         if m0 is not None and getattr(m0, "nnz", 0) > MAX_CELLS:
             continue
         toks = [kind_tok(kd[k]) if k in kd else plain_tok(k, o[k]) for k in PR_KEYS]
@@ -2236,6 +2378,9 @@ def distribution(descs, results):
                 for o in d["opts"]:
                     for kk, spec in o["kd"].items():
                         opt["kinds:%s=%s" % ("flag" if kk in FLAG_KEYS else kk, spec[0])] += 1
+                        if kk == "pm" and spec[0] == "float" and float(spec[1]) != int(spec[1]):
+                            v = float(spec[1])
+                            opt["kinds:pm fractional %s" % ("<= -1" if v <= -1 else "in (-1,0)" if v < 0 else ">= 0")] += 1
             if d.get("k") == "rt" and ("rs" in d):
                 opt["rt:shifted (rs=%s, margin %s, end_time %s)" % (d["rs"], "0" if not d["tm"] else "int" if d["tm"] == int(d["tm"]) else "frac",
                                                                   "given" if "et_frames" in d else "none")] += 1
@@ -2258,6 +2403,8 @@ def distribution(descs, results):
                     opt["dec:n<=1"] += 1
             continue
         srcs[d.get("src", "array")] += 1
+        if d.get("src", "array") == "array" and any(r.get("v") == 0 for r in d["rows"]):
+            opt["arrays with velocity-0 notes" + (" only" if all(r.get("v") == 0 for r in d["rows"]) else "")] += 1
         if d.get("src", "array") == "array":
             units["+".join(sorted(d["units"])) or "none"] += 1
         for o in d["opts"]:
@@ -2275,6 +2422,7 @@ def distribution(descs, results):
                 opt["some keywords omitted"] += 1
             if "pc" in o:
                 opt["pc"] += 1
+    c["dec32 observations (time_div as numpy.float32)"] = sum(1 for r in results for x in (r.get("requests") or []) if str(x).startswith("dec32 "))
     f64c = sum((r.get("info") or {}).get("f64_compared", 0) for r in results)
     f64d = sum((r.get("info") or {}).get("f64_differs", 0) for r in results)
     c["pr:f64 family"] = sum(1 for d in descs if d.get("fam") == "f64")
@@ -2286,4 +2434,6 @@ def distribution(descs, results):
             "array_sizes(capped 12)": dict(sizes), "error_observations": errs,
             "inexact_float_compared_with_binary64_model": f64c, "of_which_exact_reading_gives_another_roll": f64d,
             "skipped_inexact_float(sessions)": skipped,
+            "normalised_pc_entries_compared_exactly": sum((r.get("info") or {}).get("pc_entries", 0) for r in results),
+            "of_which_rounded_quotients": sum((r.get("info") or {}).get("pc_rounded", 0) for r in results),
             "oracle_only_large_rolls": large}
